@@ -112,6 +112,14 @@ def run(ctx, rep):
     n_sites = _operands.run(F, rep, "C06.operand-order", ffns, "folder")
     rep.floor("C06.operand-order sites", n_sites, 30)
 
+    # ---- same primitive on both sides -----------------------------------------------------------------------
+    from props import _primsem
+    n_prim = 0
+    for op, tr in TRAIT_OF.items():
+        n_prim += _primsem.check(F, rep, "C06.primitive-semantics", "folder", tr, T.fold_fn(tr))
+        n_prim += _primsem.check(F, rep, "C06.primitive-semantics", "interpreter", tr, T.rt_fn(tr))
+    rep.floor("C06.primitive-semantics arithmetic sites", n_prim, 100)
+
     # ---- (c) ---------------------------------------------------------------------------------------------
     for op in ("Add", "Subtract", "Multiply", "Divide", "Modulo", "BitwiseLs", "BitwiseRs"):
         f = T.fold_fn(TRAIT_OF[op])
